@@ -109,6 +109,19 @@ ensures
         r != SafeToNotarStatus::SafeToNotar ==> final(self).sent_safe_to_notar@ == old(self).sent_safe_to_notar@
             && (final(self).pending_safe_to_notar@ == old(self).pending_safe_to_notar@
                 || final(self).pending_safe_to_notar@ == old(self).pending_safe_to_notar@.insert(block_hash)),
+        // [C06.block_waiting_for_more_votes_is_remembered] "raised as soon as all conditions hold, whichever arrives last": a block with
+        // at least 20% notarize stake that still lacks votes is put on the list the skip-vote path re-examines ...
+        (at_least_pct(Self::map_stake(old(self).voted_stakes.notar@, block_hash), old(self).total(), 20) && !old(self).cond_votes(block_hash))
+            ==> final(self).pending_safe_to_notar@ == old(self).pending_safe_to_notar@.insert(block_hash),
+        // [C06.block_waiting_for_the_own_vote_is_remembered] ... and so is a block for which only the node's own vote is missing
+        // (add_vote re-examines the list when the own vote arrives)
+        (old(self).cond_votes(block_hash) && old(self).cond_parent(block_hash)
+            && old(self).votes.skip@[old(self).own()] is None && old(self).votes.notar@[old(self).own()] is None)
+            ==> final(self).pending_safe_to_notar@ == old(self).pending_safe_to_notar@.insert(block_hash),
+        // nothing else is put on that list
+        (!at_least_pct(Self::map_stake(old(self).voted_stakes.notar@, block_hash), old(self).total(), 20)
+            || (old(self).cond_votes(block_hash) && !old(self).cond_parent(block_hash)))
+            ==> final(self).pending_safe_to_notar@ == old(self).pending_safe_to_notar@,
         r == SafeToNotarStatus::MissingBlock ==> old(self).cond_votes(block_hash) && !old(self).parents@.contains_key(block_hash),
         // frame
         final(self).votes == old(self).votes,
@@ -210,9 +223,48 @@ loop 0
             mid.sent_safe_to_notar@.subset_of(self.sent_safe_to_notar@),
             forall|i: int| 0 <= i < votor_events@.len() ==> s2n_event_ok(mid.sent_safe_to_notar@, &*self, #[trigger] votor_events@[i]) && votor_events@[i] is SafeToNotar,
             events_distinct(votor_events@),
+            // every waiting block already visited has been signalled if (with the new skip stake) its conditions hold
+            verif_it.rest().no_duplicates(),
+            forall|h: BlockHash| verif_it.rest().contains(h) ==> #[trigger] mid.pending_safe_to_notar@.contains(h),
+            forall|h: BlockHash| #[trigger] mid.pending_safe_to_notar@.contains(h) && !verif_it.rest().contains(h)
+                ==> self.sent_safe_to_notar@.contains(h) || !mid.spec_s2n(h),
+        ensures
+            verif_it.rest().len() == 0,
         decreases verif_it.rest().len(),
+before `let hash = match verif_it.next() { Some(x) => x, None => break };`
+        let ghost rest0 = verif_it.rest();
+after `let hash = match verif_it.next() { Some(x) => x, None => break };`
+        proof {
+            assert(self.spec_s2n(hash) == mid.spec_s2n(hash));
+            assert(rest0[0] == hash && verif_it.rest() == rest0.skip(1));
+            assert forall|a: int, b: int| 0 <= a < b < verif_it.rest().len() implies verif_it.rest()[a] != verif_it.rest()[b] by {
+                assert(rest0[a + 1] != rest0[b + 1]);
+            }
+            assert forall|h: BlockHash| verif_it.rest().contains(h) implies #[trigger] mid.pending_safe_to_notar@.contains(h) by {
+                let k = choose|k: int| 0 <= k < verif_it.rest().len() && verif_it.rest()[k] == h;
+                assert(rest0[k + 1] == h);
+                assert(rest0.contains(h));
+            }
+            assert forall|h: BlockHash| #[trigger] mid.pending_safe_to_notar@.contains(h) && !verif_it.rest().contains(h) && h != hash
+                implies !rest0.contains(h) by {
+                if rest0.contains(h) {
+                    let k = choose|k: int| 0 <= k < rest0.len() && rest0[k] == h;
+                    assert(k > 0);
+                    assert(verif_it.rest()[k - 1] == h);
+                }
+            }
+        }
 before `let total_skip_stake = self.voted_stakes.skip + self.voted_stakes.skip_fallback;`
-        proof { Self::lemma_wf_transfer(&mid, &*self, Pending::Nothing); self.lemma_counted_is_stored(); }
+        proof {
+            Self::lemma_wf_transfer(&mid, &*self, Pending::Nothing); self.lemma_counted_is_stored();
+            // [C06.skip_vote_arriving_last_raises_every_waiting_signal] "raised as soon as all of its conditions hold, whichever of them - a
+            // vote ... - arrives last": after a skip(-fallback) vote is counted, no block on the waiting list whose conditions hold is left
+            // without its signal
+            assert forall|h: BlockHash| #[trigger] mid.pending_safe_to_notar@.contains(h) && self.spec_s2n(h) implies self.sent_safe_to_notar@.contains(h) by {
+                assert(!verif_it.rest().contains(h));
+                assert(self.spec_s2n(h) == mid.spec_s2n(h));
+            }
+        }
 after `let total_skip_stake = self.voted_stakes.skip + self.voted_stakes.skip_fallback;`
         proof { assert(total_skip_stake.0 == self.sum(self.votes.p_skip()) + self.sum(self.votes.p_skip_fb())); }
 after `let sf_votes = self.votes.skip_fallback_votes();`
@@ -410,9 +462,54 @@ loop 0
             mid.sent_safe_to_notar@.subset_of(self.sent_safe_to_notar@),
             forall|i: int| 0 <= i < votor_events@.len() ==> s2n_event_ok(pre.sent_safe_to_notar@, &*self, #[trigger] votor_events@[i]) && s2s_event_ok(&pre, &*self, votor_events@[i]),
             events_distinct(votor_events@),
+            // every waiting block already visited has been signalled if (now that the own vote is in) its conditions hold
+            verif_it.rest().no_duplicates(),
+            forall|h: BlockHash| verif_it.rest().contains(h) ==> #[trigger] mid.pending_safe_to_notar@.contains(h),
+            forall|h: BlockHash| #[trigger] mid.pending_safe_to_notar@.contains(h) && !verif_it.rest().contains(h)
+                ==> self.sent_safe_to_notar@.contains(h) || !mid.spec_s2n(h),
+        ensures
+            verif_it.rest().len() == 0,
         decreases verif_it.rest().len(),
+before `let hash = match verif_it.next() { Some(x) => x, None => break };`
+        let ghost rest0 = verif_it.rest();
+after `let hash = match verif_it.next() { Some(x) => x, None => break };`
+        proof {
+            assert(self.spec_s2n(hash) == mid.spec_s2n(hash));
+            assert(rest0[0] == hash && verif_it.rest() == rest0.skip(1));
+            assert forall|a: int, b: int| 0 <= a < b < verif_it.rest().len() implies verif_it.rest()[a] != verif_it.rest()[b] by {
+                assert(rest0[a + 1] != rest0[b + 1]);
+            }
+            assert forall|h: BlockHash| verif_it.rest().contains(h) implies #[trigger] mid.pending_safe_to_notar@.contains(h) by {
+                let k = choose|k: int| 0 <= k < verif_it.rest().len() && verif_it.rest()[k] == h;
+                assert(rest0[k + 1] == h);
+                assert(rest0.contains(h));
+            }
+            // a waiting block that is no longer ahead was either behind already or is the one visited now
+            assert forall|h: BlockHash| #[trigger] mid.pending_safe_to_notar@.contains(h) && !verif_it.rest().contains(h) && h != hash
+                implies !rest0.contains(h) by {
+                if rest0.contains(h) {
+                    let k = choose|k: int| 0 <= k < rest0.len() && rest0[k] == h;
+                    assert(k > 0);
+                    assert(verif_it.rest()[k - 1] == h);
+                }
+            }
+        }
 before `(certs_created, votor_events, blocks_to_repair)`
-        proof { Self::lemma_wf_transfer(&mid, &*self, Pending::Nothing); }
+        proof {
+            Self::lemma_wf_transfer(&mid, &*self, Pending::Nothing);
+            // [C06.own_vote_arriving_last_raises_every_waiting_signal] "raised as soon as all of its conditions hold, whichever of them
+            // ... the node's own vote ... arrives last": once the own vote is stored and counted, no block on the waiting list whose
+            // conditions hold is left without its signal
+            assert(gvote.spec_signer() == pre.epoch_info.own_id ==> forall|h: BlockHash| #[trigger] mid.pending_safe_to_notar@.contains(h) && self.spec_s2n(h)
+                ==> self.sent_safe_to_notar@.contains(h));
+        }
+blockend `let mut verif_it = self.pending_safe_to_notar.clone().into_iter();`
+        proof {
+            assert forall|h: BlockHash| #[trigger] mid.pending_safe_to_notar@.contains(h) && self.spec_s2n(h) implies self.sent_safe_to_notar@.contains(h) by {
+                assert(!verif_it.rest().contains(h));
+                assert(self.spec_s2n(h) == mid.spec_s2n(h));
+            }
+        }
 @*/
 /*@ extract src/consensus/pool/slot_state.rs :: impl SlotState/fn notify_parent_known
 props C06
